@@ -21,6 +21,8 @@
 //!   (automatic) `_ = e;` inside a pasted body becomes `let _ = e;`                                        (E9)
 //!   (automatic) a call of a private helper of the same repo file that the template does not define and that has no
 //!               early exit is replaced by a block binding its parameters around the helper's own body       (E10)
+//!   (automatic) `debug_assert!(e)` / `debug_assert_eq!(a, b)` / `debug_assert_ne!(a, b)` inside a pasted body become
+//!               `verif_debug_assert(cond)`, a function that requires `cond` (obligation `:debug-assert`, C17)    (E11)
 //!   //@paste <file> | <sel> | <fn> [| as <key>]   replaced by the verbatim body of that function; <key> (default: <fn>) is the
 //!                                             name under which //@closure, //@loop, //@replace address this paste
 //! <sel>: "<Trait> for <Type>", "inherent <Type>", "trait <Trait>" (default method) or "free" (free function).
@@ -198,6 +200,37 @@ impl<'a, 'ast> Visit<'ast> for Edits<'a> {
             }
         }
         syn::visit::visit_expr_closure(self, c);
+    }
+    fn visit_macro(&mut self, mac: &'ast syn::Macro) {
+        // E11: `debug_assert!(e)`, `debug_assert_eq!(a, b)`, `debug_assert_ne!(a, b)` -- run-time checks that exist in debug builds
+        // only -- become calls of `verif_debug_assert(cond)` (requires cond): the obligation that the check can never fire, so that
+        // debug and release builds agree (C17).  A message argument is dropped; the condition text is the repo's.
+        let name = mac.path.segments.last().map(|s| s.ident.to_string()).unwrap_or_default();
+        if name == "debug_assert" || name == "debug_assert_eq" || name == "debug_assert_ne" {
+            use syn::punctuated::Punctuated;
+            if let Ok(args) = mac.parse_body_with(Punctuated::<syn::Expr, syn::Token![,]>::parse_terminated) {
+                let need = if name == "debug_assert" { 1 } else { 2 };
+                let (open, close) = match &mac.delimiter {
+                    syn::MacroDelimiter::Paren(p) => (p.span.open(), p.span.close()),
+                    syn::MacroDelimiter::Brace(p) => (p.span.open(), p.span.close()),
+                    syn::MacroDelimiter::Bracket(p) => (p.span.open(), p.span.close()),
+                };
+                if args.len() >= need {
+                    let a0 = args[0].span().byte_range();
+                    self.ins.push(Edit { start: start(mac.path.span()), end: a0.start, text: "verif_debug_assert((".to_string(), rule: "E11" });
+                    let last_end = if need == 2 {
+                        let a1 = args[1].span().byte_range();
+                        self.ins.push(Edit { start: a0.end, end: a1.start, text: (if name == "debug_assert_eq" { ") == (" } else { ") != (" }).to_string(), rule: "E11" });
+                        a1.end
+                    } else { a0.end };
+                    self.ins.push(Edit { start: last_end, end: end(close), text: "))".to_string(), rule: "E11" });
+                    let _ = open;
+                    for a in args.iter().take(need) { self.visit_expr(a); }
+                    return;
+                }
+            }
+        }
+        syn::visit::visit_macro(self, mac);
     }
     fn visit_expr_assign(&mut self, a: &'ast syn::ExprAssign) {
         // E9: `_ = e;` (destructuring assignment to the wildcard, unsupported by Verus) -> `let _ = e;` (same meaning)
